@@ -121,6 +121,11 @@ class Machine:
         t0 = time.time()
         self.queries += 1
         r = self.solver.check(*extra)
+        if r == z3.unknown:
+            # a loaded machine can push a harmless query over the 5 s guard: one retry with a six-fold budget before giving up
+            self.solver.set("rlimit", 0); self.solver.set("timeout", 30000)
+            r = self.solver.check(*extra)
+            self.solver.set("rlimit", 5000 * 20000); self.solver.set("timeout", 5000)
         self.solver_time += time.time() - t0
         if r == z3.unknown:
             self.unknowns += 1
@@ -768,7 +773,9 @@ class Machine:
             # a hand-written impl in the crate wins over the generic library models
             tb, trb = base_name(ty), base_name(trait)
             c = self.world.impl_index().get((tb, trb, meth))
-            if c and self.world.is_derived(tb, trb) is False:
+            # several impls of one trait for one type (`#[derive(PartialEq)]` and `impl PartialEq<u64> for T`): decide per chosen impl
+            hand = c and (self.world.impl_derived.get(self.world.pick_impl(c, trait)) is False if len(c) > 1 else self.world.is_derived(tb, trb) is False)
+            if c and hand:
                 f0 = self.mod.get_for_self(self.world.pick_impl(c, trait), tb)
                 sb = {"Self": tb}
                 sb.update(self.world.call_subst(f0.name, ty))
